@@ -242,11 +242,15 @@ package consensus
 //@   loops 0
 //@   requires p.hash == nil
 //@   ensures [C19] @noStaleHash p.hash == nil
+// the bytes the last MarshalUnsigned handed out
+//@ ghost gMarshalled IntSeq
 //@ func (*Payload).Hash
 //@   recvname p
 //@   loops 0
 //@   requires p.hash == nil && p.message.payload != nil
-//@   modifies gEncoded, gHashed, gLastHash, gMarshals, gPayloadEncodes
+//@   modifies gEncoded, gHashed, gLastHash, gMarshals, gPayloadEncodes, gMarshalled
+// ... and ALL of these bytes are hashed, not a part of them
+//@   at call *.Hash256: assert [C19] @wholeEncoding sametable(arg0, gMarshalled)
 // what is hashed is the unsigned encoding of the whole payload (header and message), produced once
 //@   ensures [C19] @hashedFromMarshal gMarshals == old(gMarshals) + 1 && gPayloadEncodes == old(gPayloadEncodes) + 1
 //@   ensures [C19] @hashedFromContent gHashed == old(gHashed) + 1 && result == gLastHash
@@ -255,8 +259,10 @@ package consensus
 //@ func (Payload).MarshalUnsigned
 //@   recvname p
 //@   loops 0
-//@   modifies gEncoded, gMarshals, gPayloadEncodes
+//@   modifies gEncoded, gMarshals, gPayloadEncodes, gMarshalled
 //@   ghost gMarshals = gMarshals + 1
+//@   ghost gMarshalled = result
+//@   ensures [C19] @recordsWhatItHandsOut sametable(gMarshalled, result)
 //@   ensures [C19] @wholePayload gMarshals == old(gMarshals) + 1 && gPayloadEncodes == old(gPayloadEncodes) + 1
 // the bytes handed out are this call's own: no other payload's or block's encoding can later change them
 //@   ensures [C19] @ownBytes fresh(result)
